@@ -1,6 +1,6 @@
 //! C08 — YUV->RGB->YUV is a lossless code round trip.
 
-use super::c01::{configs, domains, Cfg};
+use super::c01::{configs, domains_for, Cfg};
 use crate::explore::*;
 use crate::img::*;
 use crate::refmodel::*;
@@ -97,7 +97,7 @@ pub fn run(tier: Tier) -> Report {
     let mut base = 0u64;
     let mut domain_desc = std::collections::BTreeMap::new();
     for c in &cfgs {
-        for d in domains(c.n as u32, tier) {
+        for d in domains_for(c, tier) {
             domain_desc.insert(format!("depth {}: {}", c.n, d.describe()), d.len());
             let total = d.len();
             let acc = par_chunks(total, 1 << 16, |acc, lo, hi| {
